@@ -196,6 +196,17 @@ def coq_eval(name, vtext, timeout=900):
     return rc, out
 
 
+def jlines(out, prefix="{"):
+    """JSON lines printed by a harness. A line cut or interleaved with other output (a dying child, a race-detector
+    report on stderr) is skipped rather than crashing the check; callers notice missing cases by their counts."""
+    got = []
+    for ln in out.split("\n"):
+        if not ln.startswith(prefix): continue
+        try: got.append(json.loads(ln))
+        except ValueError: continue
+    return got
+
+
 def parse_zlist(out, ident):
     """parse `ident = [a; b; ...]` (possibly wrapped over lines, %Z/%N annotations) from Print output."""
     m = re.search(re.escape(ident) + r"\s*=\s*(\[.*?\])\s*:", out, re.S)
